@@ -68,6 +68,9 @@ def units(tier):
         us.append({"kind": "varint", "lo": lo, "hi": lo + step})
     us.append({"kind": "varint-extra"})
     us.append({"kind": "prefix-boundary"})
+    from .. import scale
+    for n in scale.sizes(tier):
+        us.append({"kind": "scale", "sizes": [n]})
     us.append({"kind": "wideints"})
     us.append({"kind": "negative-lengths"})
     return us
@@ -131,17 +134,17 @@ def cmp_parse(t, d, data, kw, tsig):
     if a[0] == "ok" and b[0] == "ok":
         if not T.eqv(a[1], b[1]):
             return a, [{"sig": "C03/parse-value-differs/" + tsig, "case": case,
-                        "detail": "%s.parse(%s) = %r, reference %r" % (T.show(t), data.hex(), b[1], a[1])}]
+                        "detail": "%s.parse(%s) = %s, reference %s" % (T.show(t), shex(data), srepr(b[1]), srepr(a[1]))}]
         if a[2] != b[2]:
             return a, [{"sig": "C03/parse-consumed-differs/" + tsig, "case": case,
                         "detail": "%s.parse(%s) consumed %d bytes, reference %d" % (T.show(t), data.hex(), b[2], a[2])}]
         return a, []
     if a[0] == "ok" and b[0] == "rej":
         return a, [{"sig": "C03/parse-rejects-valid/" + tsig, "case": case,
-                    "detail": "%s.parse(%s) raised %s, reference accepts with %r" % (T.show(t), data.hex(), b[1], a[1])}]
+                    "detail": "%s.parse(%s) raised %s, reference accepts with %s" % (T.show(t), shex(data), b[1], srepr(a[1]))}]
     if a[0] == "rej" and b[0] == "ok":
         return a, [{"sig": "C03/parse-accepts-invalid/" + tsig, "case": case,
-                    "detail": "%s.parse(%s) = %r, reference rejects (%s)" % (T.show(t), data.hex(), b[1], a[1])}]
+                    "detail": "%s.parse(%s) = %s, reference rejects (%s)" % (T.show(t), shex(data), srepr(b[1]), a[1])}]
     return a, []
 
 
@@ -154,15 +157,29 @@ def cmp_build(t, d, v, kw, tsig):
     if a[0] == "ok" and b[0] == "ok":
         if a[1] != b[1]:
             return a, [{"sig": "C03/build-bytes-differ/" + tsig, "case": case,
-                        "detail": "%s.build(%r) = %s, reference %s" % (T.show(t), v, b[1].hex(), a[1].hex())}]
+                        "detail": "%s.build(%s) = %s, reference %s" % (T.show(t), srepr(v), shex(b[1]), shex(a[1]))}]
         return a, []
     if a[0] == "ok" and b[0] == "rej":
         return a, [{"sig": "C03/build-rejects-valid/" + tsig, "case": case,
-                    "detail": "%s.build(%r) raised %s, reference emits %s" % (T.show(t), v, b[1], a[1].hex())}]
+                    "detail": "%s.build(%s) raised %s, reference emits %s" % (T.show(t), srepr(v), b[1], shex(a[1]))}]
     if a[0] == "rej" and b[0] == "ok":
         return a, [{"sig": "C03/build-accepts-invalid/" + tsig, "case": case,
-                    "detail": "%s.build(%r) = %s, reference rejects (%s)" % (T.show(t), v, b[1].hex(), a[1])}]
+                    "detail": "%s.build(%s) = %s, reference rejects (%s)" % (T.show(t), srepr(v), shex(b[1]), a[1])}]
     return a, []
+
+
+def srepr(v, limit=300):
+    """repr that survives integers beyond the interpreter's int->str digit limit and stays short"""
+    try:
+        s = repr(v)
+    except ValueError:
+        s = "<%s holding an integer of more than 4300 digits>" % type(v).__name__
+    return s if len(s) <= limit else s[:limit] + "...(%d chars)" % len(s)
+
+
+def shex(b, limit=80):
+    h = bytes(b).hex()
+    return h if len(h) <= 2 * limit else "%s...(%d bytes)" % (h[:2 * limit], len(b))
 
 
 def enc_value(v):
@@ -171,7 +188,7 @@ def enc_value(v):
         return {"$label": [str.__str__(v), v.intvalue]}
     if isinstance(v, bool) or v is None or isinstance(v, (int, str)):
         if isinstance(v, int) and not isinstance(v, bool) and abs(v) > 1 << 53:
-            return {"$int": str(v)}
+            return {"$int": hex(v)}
         return v
     if isinstance(v, float):
         return {"$float": v.hex()}
@@ -189,7 +206,7 @@ def enc_value(v):
 def dec_value(e):
     if isinstance(e, dict):
         if "$int" in e:
-            return int(e["$int"])
+            return int(e["$int"], 0)
         if "$label" in e:
             return R.Label(e["$label"][0], e["$label"][1])
         if "$float" in e:
@@ -363,6 +380,8 @@ def run_unit(unit, tier):
         run_varint_extra(r)
     elif k == "prefix-boundary":
         run_prefix_boundary(r)
+    elif k == "scale":
+        run_scale(unit["sizes"], r)
     elif k == "wideints":
         run_wideints(r)
     elif k == "negative-lengths":
@@ -482,6 +501,52 @@ def run_varint(lo, hi, r):
                         r.violation("C03/reference-self-inconsistent", {"term": t, "op": "build", "value": v, "kw": {}}, "reference parse(build(v)) != v")
                 r.case(nontrivial=a[0] == "ok", outcome="varint", transitions=2, validated=2)
     r.sample({"varint_range": [lo, hi]})
+
+
+def scale_cases(n):
+    """(term, value) pairs holding n units of data"""
+    from .. import scale
+    B, I16 = G.BYTE, G.I(2, False, "b")
+    S = lambda *ms: ["Struct", [list(m) for m in ms]]
+    if True:
+        ramp, nz, text = scale.payload(n, "ramp"), scale.payload(n, "nozero"), scale.payload(n, "text").decode()
+        big = int.from_bytes(scale.payload(n, "nozero"), "big")
+        cases = [
+            (["Bytes", n], ramp), (["GreedyBytes"], ramp), (["GreedyString", "utf8"], text), (["GreedyString", "utf_16_le"], text),
+            (["CString", "ascii"], text), (["CString", "utf_16_be"], text), (["PascalString", ["VarInt"], "utf8"], text), (["PaddedString", n + 3, "ascii"], text),
+            (["Array", n, B], list(ramp)), (["GreedyRange", B], list(ramp)), (["PrefixedArray", ["VarInt"], I16], [(i * 257) & 0xffff for i in range(n)]),
+            (["RepeatUntil", ["objcmp", "==", 0], B], list(nz[:-1]) + [0]), (["Padded", n + 5, ["Bytes", n], b"\x00"], ramp), (["Aligned", 4096, ["Bytes", n], b"\x00"], ramp),
+            (S(("a", ["Padding", n]), ("b", B)), {"a": None, "b": 7}), (["VarInt"], big), (["ZigZag"], -big), (["BytesInteger", n, False, False], big),
+            (["BytesInteger", n, True, True], -(big >> 1)), (S(("n", ["VarInt"]), ("d", ["Bytes", ["this", "n"]]), ("t", B)), {"n": n, "d": ramp, "t": 1}),
+            (["Prefixed", ["VarInt"], ["GreedyRange", I16], False], [(i * 7) & 0xffff for i in range(n)]),
+            (["NullTerminated", ["GreedyBytes"], b"\x00", False, True, True], nz), (["NullStripped", ["GreedyBytes"], b"\x00"], nz),
+            (["FixedSized", n + 7, ["NullStripped", ["GreedyBytes"], b"\x00"]], nz), (["ProcessXor", 0x5a, ["GreedyBytes"]], ramp),
+            (["Array", 3, ["Bytes", n]], [ramp, nz, ramp]),
+        ]
+    return cases
+
+
+def run_scale(sizes, r):
+    """the size axis (mc/scale.py): every wire format whose amount of data is a parameter, at each size of the alphabet"""
+    for n in sizes:
+        for t, v in scale_cases(n):
+            d = T.mk(t)
+            tsig = "scale:" + T.sig_of(t)
+            r.states += 1
+            a, vs = cmp_build(t, d, v, {}, tsig)
+            r.case(nontrivial=a[0] == "ok" and not vs, outcome="scale-build-" + a[0], validated=1)
+            for x in vs:
+                x["case"] = {"scale": [T.show(t)[:60], n], "op": "build"}
+                r.violation(x["sig"], x["case"], x["detail"][:500])
+            if a[0] == "ok":
+                for data in (a[1], a[1][:-1], a[1] + b"\x01", a[1][:len(a[1]) // 2]):
+                    r.states += 1
+                    pa, vs = cmp_parse(t, d, data, {}, tsig)
+                    r.case(nontrivial=bool(pa) and pa[0] == "ok" and not vs, outcome="scale-parse", validated=1)
+                    for x in vs:
+                        x["case"] = {"scale": [T.show(t)[:60], n], "op": "parse", "len": len(data)}
+                        r.violation(x["sig"], x["case"], x["detail"][:500])
+    r.sample({"scale_sizes": sizes, "formats": 26})
 
 
 def run_prefix_boundary(r):
@@ -606,6 +671,10 @@ def run_neglen(r):
 
 
 def replay(case):
+    if "scale" in case:
+        r = UnitResult()
+        run_scale([case["scale"][1]], r)
+        return [v for v in r.violations if v["case"].get("scale") == case["scale"]]
     t = case["term"]
     kw = case.get("kw") or {}
     if case.get("op") == "mk":
